@@ -135,6 +135,23 @@ func (in *interp) param(name string, def int) int {
 
 const zz = "github.com/kubewharf/kubebrain/pkg/zzverif."
 
+// gateAt is a labelled scheduling point (zzverif.YieldAt and the points derived from it).
+func (in *interp) gateAt(pt string) {
+	in.sch.cur.known = true
+	in.sch.yield("YieldAt")
+	name := in.sch.cur.label
+	if name == "" {
+		if in.sch.cur.id == 0 {
+			return // the harness's main thread is not gated
+		}
+		name = "?"
+	}
+	in.sch.schedLog = append(in.sch.schedLog, name+":"+pt)
+	if strings.HasPrefix(pt, "m:") {
+		in.sch.cur.afterGate = true
+	}
+}
+
 func registerOverrides(e *Engine) {
 	// ---------------- harness API ----------------
 	e.reg(zz+"U64", func(in *interp, fr *frame, a []value) value { return in.ctx.Var(in.str(a[0]), 64) })
@@ -238,20 +255,11 @@ func registerOverrides(e *Engine) {
 		return nil
 	})
 	e.reg(zz+"YieldAt", func(in *interp, fr *frame, a []value) value {
-		in.sch.cur.known = true
-		in.sch.yield("YieldAt")
-		name := in.sch.cur.label
-		if name == "" {
-			if in.sch.cur.id == 0 {
-				return nil // the harness's main thread is not gated
-			}
-			name = "?"
-		}
-		pt := in.str(a[0])
-		in.sch.schedLog = append(in.sch.schedLog, name+":"+pt)
-		if strings.HasPrefix(pt, "m:") {
-			in.sch.cur.afterGate = true
-		}
+		in.gateAt(in.str(a[0]))
+		return nil
+	})
+	e.reg(zz+"GateLogs", func(in *interp, fr *frame, a []value) value {
+		in.logGates = append(in.logGates, in.str(a[0]))
 		return nil
 	})
 	e.reg(zz+"Go", func(in *interp, fr *frame, a []value) value {
